@@ -1,6 +1,6 @@
 (* C03 — authorization codes are single-use, client-bound, redirect-bound and short-lived.
    Statements only; proofs in Proofs/OneShot.v, Proofs/HistProps.v, Proofs/FreshHandlers.v. *)
-From Verif Require Import Base Scope Types Prog Pop Token Authorize System Config Run Monitors Fresh FreshHandlers OneShot HistProps Replay.
+From Verif Require Import Base Scope Types Prog Pop Token Authorize System Config Run Monitors Fresh FreshHandlers OneShot HistProps Replay PkceProofs.
 Local Open Scope N_scope.
 
 (* Over every history (any configuration, clients, interleaving of operations, clock advances): no
@@ -47,6 +47,23 @@ Theorem code_pkce : forall cfg v s,
     (if is_empty (p_method (a_params s)) then cf_pkce_default cfg else p_method (a_params s)) = true.
 Proof. exact validate_pkce_sound. Qed.
 Print Assumptions code_pkce.
+
+(* ... at the token endpoint, for every store and request: a code whose session recorded a challenge
+   yields tokens only with a verifier matching it under the EFFECTIVE method - the one the authorization
+   request named, else (code_challenge sent without code_challenge_method) the server's default
+   (pkce_matches is the predicate the monitor's clause 5 evaluates on the implementation's traces); with
+   the method left out the verifier is checked under the configured default, and when that default is S256
+   the challenge string itself is never an acceptable verifier (no fallback to plain) *)
+Theorem code_pkce_effective_method : forall w n now r st,
+  is_tokens (snd (run_seq (code_grant w n now r) st)) = true ->
+  exists s, find (fun s => ideq (a_code s) (t_code r)) (st_asess st) = Some s /\
+    (cf_pkce_enabled (w_cfg w) = true -> pk_is_empty (p_challenge (a_params s)) = false ->
+       pkce_matches (w_cfg w) (a_params s) (t_verifier r) = true /\
+       (is_empty (p_method (a_params s)) = true ->
+          is_pkce_valid (t_verifier r) (p_challenge (a_params s)) (cf_pkce_default (w_cfg w)) = true /\
+          (cf_pkce_default (w_cfg w) = "S256" -> pk_eqb (p_challenge (a_params s)) (t_verifier r) = false))).
+Proof. exact code_pkce_effective. Qed.
+Print Assumptions code_pkce_effective_method.
 
 (* in every reachable state a code is empty or was minted by an earlier operation, and identifies
    at most one stored session (likewise the other indexes) *)
@@ -100,3 +117,17 @@ Example code_flow_exists :
   | [Out (ONav _ _ nv); Out (OTokens _); Out (OErr EInvalidGrant)] => n_code nv = mint 0 KCode
   | _ => False end.
 Proof. vm_compute. reflexivity. Qed.
+
+(* non-vacuity of the omitted-method case: S256 is the default, the request carries the thumbprint of the
+   verifier and no code_challenge_method - the pre-image redeems the code, the challenge string does not *)
+Example code_flow_method_omitted :
+  let c1 := mkClient 1 false [GAuthorizationCode] ["code"] ["https://c/cb"] "openid" CibaNone false false false false false false false 0 false in
+  let w := mkWorld (match build POpenID [WithAuthorizationCodeGrant; WithPKCE "S256" []] with Some c => c | None => base_config POpenID end) [c1] in
+  let v := PkRaw 1 true in
+  let p := mkParams 0 "https://c/cb" "" "code" "openid" "s" "" (PkHash v) "" 0 "" 0 "" [] in
+  let tr code vf := mkTReq (mkCred 1 true) no_bind "" code "https://c/cb" 0 vf 0 HgOk BaApprove [] in
+  let a := OpAuthorize (mkAReq 1 p true (PolSuccess "alice" "openid" [])) in
+  match run w [] [a; OpToken GAuthorizationCode (tr (mint 0 KCode) v); a; OpToken GAuthorizationCode (tr (mint 2 KCode) (PkHash v))] with
+  | [Out (ONav _ _ _); Out (OTokens _); Out (ONav _ _ _); Out (OErr EInvalidGrant)] => True
+  | _ => False end.
+Proof. vm_compute. exact I. Qed.
